@@ -61,8 +61,8 @@ SPEC = dict(
          "root / first in the internal subset, token 2 on a child element / second). Configurations: the FULL product {disableDefaultEntityResolution} x {loadExternalDTD} x "
          "{validation never/always/auto} x {loadSchema} x {doSchema} x {IG,WF,DG,SG scanner} x {standard-uri-conformant} x {document base /v/doc.xml, file:///v/doc.xml} x 12 "
          "(API, resolver) settings {no resolver on SAX2/SAX1/DOM/DOMLS; SAX EntityResolver source@SAX1, null@SAX2; XMLEntityResolver source@DOM, source@SAX2, null@SAX2, null@DOMLS; "
-         "DOMLSResourceResolver source, null} = 9216 configurations for k<=1; for k=2 the 768-configuration product without the resolver dimension plus the 96-configuration product scanner x "
-         "disableDefaultEntityResolution x 12 resolver settings (thorough) or the 32-configuration product scanner x {disableDefaultEntityResolution, loadExternalDTD, loadSchema} (quick). Every file/net access and resolver offer of a parse goes to one chronological log "
+         "DOMLSResourceResolver source, null} = 9216 configurations for k<=1; for k=2 the 192-configuration product scanner x validation x {disableDefaultEntityResolution, loadExternalDTD, "
+         "loadSchema, doSchema} plus the 96-configuration product scanner x disableDefaultEntityResolution x 12 resolver settings (thorough) or the 32-configuration product scanner x {disableDefaultEntityResolution, loadExternalDTD, loadSchema} (quick). Every file/net access and resolver offer of a parse goes to one chronological log "
          "that is checked against a reference model of the permitted set. "
          "Space B (expansion limit): every labelled definition graph on n <= N entities (N=3 quick, 4 thorough; each entity references a multiset of <= 2 entities, self references and "
          "cycles included: 3+36+1000(+50625) graphs) as general entities referenced from content / an attribute value / both / content with the last entity external, parsed by SAX2 "
@@ -98,7 +98,7 @@ SPEC = dict(
                _ex("expand-schema-doc-n2", "--space", "schema", "--n", 2),
                _ex("expand-predefined", "--space", "predef", "--refs", 4)],
         thorough=[_ax("access-k1-full-product", "--space", "access-k1", "--k", 1, "--cfgset", "full"),
-                  _ax("access-k2-gating768", "--space", "access-k2", "--k", 2, "--cfgset", "gating"),
+                  _ax("access-k2-gating192", "--space", "access-k2", "--k", 2, "--cfgset", "gating192"),
                   _ax("access-k2-resolver96", "--space", "access-k2r", "--k", 2, "--cfgset", "resolver96"),
                   _ex("expand-general-n4", "--space", "ge", "--n", 4),
                   _ex("expand-parameter-n3", "--space", "pe", "--n", 3),
